@@ -54,6 +54,55 @@ theorem C10_file_tree_paths_nodup (writes : List (String × String)) : ((fileTre
       obtain ⟨x, hx, hxa⟩ := List.mem_map.1 ha
       exact hnot (List.any_eq_true.2 ⟨x, hx, by simp [hxa]⟩)
 
+theorem fileTree_go_paths (q : String) : ∀ (ws acc : List (String × String)),
+    q ∈ (fileTree.go acc ws).map (·.1) ↔ (q ∈ acc.map (·.1) ∨ q ∈ ws.map (·.1)) := by
+  intro ws
+  induction ws with
+  | nil => intro acc; simp [fileTree.go]
+  | cons w r ih =>
+    intro acc
+    obtain ⟨p, t⟩ := w
+    unfold fileTree.go
+    split
+    · next hany =>
+      rw [ih]
+      have : (acc.map fun x => if x.1 == p then (x.1, t) else (x.1, x.2)).map (·.1) = acc.map (·.1) := by
+        simp only [List.map_map]; apply List.map_congr_left; intro x _; simp only [Function.comp]; split <;> rfl
+      rw [this]
+      simp only [List.map_cons, List.mem_cons]
+      constructor
+      · rintro (h | h)
+        · exact Or.inl h
+        · exact Or.inr (Or.inr h)
+      · rintro (h | h | h)
+        · exact Or.inl h
+        · obtain ⟨x, hx, hxp⟩ := List.any_eq_true.1 hany
+          subst h
+          exact Or.inl (List.mem_map.2 ⟨x, hx, by simpa using hxp⟩)
+        · exact Or.inr h
+    · rw [ih]
+      simp only [List.map_append, List.map_cons, List.map_nil, List.mem_append, List.mem_cons]
+      simp only [List.not_mem_nil, or_false]
+      constructor
+      · rintro ((h | h) | h)
+        · exact Or.inl h
+        · exact Or.inr (Or.inl h)
+        · exact Or.inr (Or.inr h)
+      · rintro (h | h | h)
+        · exact Or.inl (Or.inl h)
+        · exact Or.inl (Or.inr h)
+        · exact Or.inr h
+
+/-- **the toolbox holds exactly the paths that were written**: no file is lost by the replacement of an earlier write
+    and none is invented — for every sequence of writes -/
+theorem C10_file_tree_paths_exact (writes : List (String × String)) (q : String) :
+    q ∈ (fileTree writes).map (·.1) ↔ q ∈ writes.map (·.1) := by
+  unfold fileTree
+  rw [fileTree_go_paths]
+  simp
+/-- non-vacuity: a path written twice appears once, the other one is kept -/
+example : (fileTree [("+a/f.m", "1"), ("g.m", "2"), ("+a/f.m", "3")]).map (·.1) = ["+a/f.m", "g.m"] := by decide
+
 /-- exactly one MEX source is produced, named `<module>_wrapper.cpp` -/
 theorem C10_one_mex_source (cfg : MCfg) (im : List IDecl) (files : List (String × String))
     (h : wrapModule cfg im = .ok files) : (files.filter (fun f => f.1 == cfg.wrapper ++ ".cpp")).length ≤ 1 := by
